@@ -3,7 +3,7 @@
    ConnectionAttempt goes to the owner of the relayed address, teardown closes the allocation's own peer
    connections only, 446 is justified by this allocation's own connections only) holds on EVERY trace of
    Model/TcpRelay.v, for every history of events. *)
-From Turn Require Import Bytes Relay RelayBase TcpRelay Common RelayCheck RelayProps C16Check C04TcpCheck.
+From Turn Require Import Bytes Relay RelayBase TcpRelay TcpBase Common RelayCheck RelayProps C16Check C04TcpCheck.
 From Coq Require Import ZifyN ZifyNat ZifyBool.
 Open Scope Z_scope.
 
@@ -37,27 +37,8 @@ Lemma dup_from_cons cp o r :
   dup_from cp (o :: r) = dup_ok cp (ts_ev o) (ts_acts o) && dup_from (newp (ts_ev o) (ts_acts o) ++ cpf (ts_ev o) cp) r.
 Proof. reflexivity. Qed.
 
-Lemma NoDup_app_intro {A} (a b : list A) : NoDup a -> NoDup b -> (forall x, In x a -> In x b -> False) -> NoDup (a ++ b).
-Proof. induction a as [|y a IH]; intros Ha Hb Hd; [exact Hb|]. inversion Ha; subst. cbn. constructor.
-  - rewrite in_app_iff. intros [Hi|Hi]; [contradiction|]. apply (Hd y); [left; reflexivity|assumption].
-  - apply IH; auto. intros x Hx1 Hx2. apply (Hd x); [right; assumption|assumption]. Qed.
 
 (* ---------- lists of allocations ---------- *)
-Lemma tfind_some c l a : tfind c l = Some a -> In a l /\ ta_client a = c.
-Proof. induction l as [|x l IH]; cbn; [discriminate|]. destruct (addr_eqb (ta_client x) c) eqn:E.
-  - intros H; inversion H; subst. apply addr_eqb_eq in E. auto.
-  - intros H. apply IH in H as [H1 H2]. auto. Qed.
-Lemma tfind_none c l : tfind c l = None -> ~ In c (map ta_client l).
-Proof. induction l as [|x l IH]; cbn; [tauto|]. destruct (addr_eqb (ta_client x) c) eqn:E; [discriminate|].
-  intros H [H1|H1]; [rewrite H1, addr_eqb_refl in E; discriminate|apply IH in H; contradiction]. Qed.
-Lemma tfind_relay_some r l a : tfind_relay r l = Some a -> In a l /\ ta_relay a = r.
-Proof. induction l as [|x l IH]; cbn; [discriminate|]. destruct (addr_eqb (ta_relay x) r) eqn:E.
-  - intros H; inversion H; subst. apply addr_eqb_eq in E. auto.
-  - intros H. apply IH in H as [H1 H2]. auto. Qed.
-Lemma owner_of_in k l a x : owner_of k l = Some (a, x) -> In a l /\ In x (ta_conns a).
-Proof. induction l as [|y l IH]; cbn; [discriminate|]. destruct (find _ (ta_conns y)) as [c|] eqn:Hf.
-  - intros H; inversion H; subst. apply find_some in Hf as [Hf _]. auto.
-  - intros H. apply IH in H as [H1 H2]. auto. Qed.
 
 Lemma rfind_client_map c l : rfind_client c (map proj l) = option_map ta_relay (tfind c l).
 Proof. induction l as [|x l IH]; cbn; [reflexivity|]. destruct (addr_eqb (ta_client x) c); [reflexivity|exact IH]. Qed.
@@ -74,25 +55,6 @@ Proof.
   - apply addr_eqb_eq in E. destruct Hin as [->|Hin]; [cbn; rewrite Hp; reflexivity|].
     exfalso. apply Hx. rewrite E. apply in_map. exact Hin.
   - destruct Hin as [->|Hin]; [rewrite addr_eqb_refl in E; discriminate|]. cbn. rewrite (IH Hl Hin). reflexivity.
-Qed.
-Lemma treplace_clients a' l : map ta_client (treplace a' l) = map ta_client l.
-Proof. induction l as [|x l IH]; cbn; [reflexivity|]. destruct (addr_eqb (ta_client x) (ta_client a')) eqn:E; cbn.
-  - apply addr_eqb_eq in E. rewrite E. reflexivity.
-  - rewrite IH. reflexivity. Qed.
-Lemma treplace_in a' l b : In b (treplace a' l) -> b = a' \/ In b l.
-Proof. induction l as [|x l IH]; cbn; [tauto|]. destruct (addr_eqb (ta_client x) (ta_client a')); cbn; intros [H|H]; auto.
-  apply IH in H. tauto. Qed.
-Lemma tremove_in c l b : In b (tremove c l) -> In b l.
-Proof. induction l as [|x l IH]; cbn; [tauto|]. destruct (addr_eqb (ta_client x) c); cbn; [auto|]. intros [H|H]; auto. Qed.
-Lemma tremove_nodup c l : NoDup (map ta_client l) -> NoDup (map ta_client (tremove c l)) /\ ~ In c (map ta_client (tremove c l)).
-Proof.
-  induction l as [|x l IH]; cbn; intros H; [split; [constructor|tauto]|]. inversion H as [|? ? Hx Hl]; subst.
-  destruct (addr_eqb (ta_client x) c) eqn:E.
-  - apply addr_eqb_eq in E. subst c. auto.
-  - destruct (IH Hl) as [I1 I2]. cbn. split.
-    + constructor; [|exact I1]. intros Hc. apply Hx. apply in_map_iff in Hc as (b & Hb1 & Hb2). rewrite <- Hb1. apply in_map.
-      eapply tremove_in; eauto.
-    + intros [Hc|Hc]; [rewrite Hc, addr_eqb_refl in E; discriminate|contradiction].
 Qed.
 
 Lemma in_pairs q l : In q (pairs l) <-> exists a x, In a l /\ In x (ta_conns a) /\ q = (ta_client a, tc_peer x).
@@ -250,7 +212,7 @@ Proof.
     destruct (tlocked s); [inversion H; subst; split; [reflexivity|split; [reflexivity|apply Same; exact I]]|].
     destruct (owner_of k (tallocs s)) as [[a x]|] eqn:Ho; [|inversion H; subst; split; [reflexivity|split; [reflexivity|apply Same; exact I]]].
     destruct (negb (ta_user a =? u)%N || tc_bound x); [inversion H; subst; split; [reflexivity|split; [reflexivity|apply Same; exact I]]|].
-    inversion H; subst; clear H. split; [reflexivity|split; [reflexivity|]]. apply owner_of_in in Ho as [Ha Hx].
+    inversion H; subst; clear H. split; [reflexivity|split; [reflexivity|]]. apply owner_of_in in Ho as (Ha & Hx & _).
     apply (inv2_replace s _ cp a); auto.
     cbn [set_conns ta_conns]. intros y Hy. left. apply in_map_iff in Hy as (z & <- & Hz).
     destruct (tc_id z =? k)%N; [exists x; split; [exact Hx|reflexivity]|exists z; split; [exact Hz|reflexivity]].
@@ -260,7 +222,7 @@ Proof.
   - (* TCloseSide *)
     destruct (owner_of cid (tallocs s)) as [[a x]|] eqn:Ho; [|inversion H; subst; split; [reflexivity|split; [reflexivity|apply Same; exact I]]].
     destruct (tc_bound x); [|inversion H; subst; split; [reflexivity|split; [reflexivity|apply Same; exact I]]].
-    inversion H; subst; clear H. apply owner_of_in in Ho as [Ha Hx].
+    inversion H; subst; clear H. apply owner_of_in in Ho as (Ha & Hx & _).
     split; [destruct cside; [reflexivity|destruct (tc_data x); reflexivity]|].
     split; [destruct cside; [reflexivity|destruct (tc_data x); reflexivity]|].
     apply (inv2_replace s _ cp a); auto.
